@@ -209,7 +209,9 @@ def ray_triangle_id(
     """
     triangles = np.asanyarray(triangles, dtype=np.float64)
     ray_origins = np.asanyarray(ray_origins, dtype=np.float64)
-    ray_directions = np.asanyarray(ray_directions, dtype=np.float64)
+    # the pruning and acceptance thresholds below are absolute
+    # distances along the ray: they need unit direction vectors
+    ray_directions = util.unitize(np.asanyarray(ray_directions, dtype=np.float64))
 
     # if we didn't get passed an r-tree for the bounds of each
     # triangle create one here
